@@ -212,6 +212,34 @@ Proof.
     try (apply read_error_cmd_ok, I); try (eapply read_macro_args_ok; eassumption).
 Qed.
 
+Lemma read_command_cc_ok ls no s ln ot s' ln' ls' :
+  read_command_cc ls no s ln = Ok (ot, s', ln', ls') -> LI ls -> LI ls'.
+Proof.
+  unfold read_command_cc. intros H I. repeat brk H;
+    injection H as <- <- <- <-; try exact I; eapply read_args_tokens_ok; eassumption.
+Qed.
+Lemma read_cc_ok ls is_c s ln ot s' ln' ls' :
+  read_cc ls is_c s ln = Ok (ot, s', ln', ls') -> LI ls -> LI ls'.
+Proof.
+  unfold read_cc. intros H I. repeat brk H;
+    try (injection H as ->; eapply read_command_cc_ok; eassumption);
+    injection H as <- <- <- <-; try exact I; apply read_error_cmd_ok, I.
+Qed.
+Lemma read_rpn_command_ok ls nrpn msb lsb s ln ot s' ln' ls' :
+  read_rpn_command ls nrpn msb lsb s ln = Ok (ot, s', ln', ls') -> LI ls -> LI ls'.
+Proof.
+  unfold read_rpn_command. intros H I. repeat brk H;
+    injection H as <- <- <- <-; try exact I; eapply read_args_tokens_ok; eassumption.
+Qed.
+Lemma read_ext_command_ok ls ttype argt tag1 tag2 s ln ot s' ln' ls' :
+  read_ext_command ls ttype argt tag1 tag2 s ln = Ok (ot, s', ln', ls') -> LI ls -> LI ls'.
+Proof.
+  unfold read_ext_command. intros H I. repeat brk H;
+    try (injection H as ->; first [eapply read_cc_ok; eassumption | eapply read_command_cc_ok; eassumption
+                                  | eapply read_rpn_command_ok; eassumption]);
+    injection H as <- <- <- <-; try exact I; eapply read_args_tokens_ok; eassumption.
+Qed.
+
 Section LoopInv.
 Variable sublex : lexstate -> list Z -> Z -> res lex_out.
 Hypothesis sub_ok : forall ls s ln toks ls', sublex ls s ln = Ok (toks, ls') -> LI ls -> LI ls'.
@@ -230,6 +258,8 @@ Proof.
   try (apply lex_error_ok, I); try (apply lx_add_log_ok, I);
   try (eapply check_variables_ok; eassumption);
   try (eapply read_args_tokens_ok; eassumption);
+  try (eapply read_cc_ok; eassumption);
+  try (eapply read_ext_command_ok; eassumption);
   try (eapply sub_ok; eassumption).
 Qed.
 End LoopInv.
